@@ -11,6 +11,8 @@ import traceback
 VERIF = os.path.dirname(os.path.dirname(os.path.abspath(__file__)))
 REPO = os.environ.get("EINX_REPO", "/repo")
 NWORKERS = int(os.environ.get("VERIF_WORKERS", "16"))
+# multiplier on the generated-case budgets of both tiers (e.g. VERIF_SCALE=0.05 for a smoke run of the thorough tier)
+SCALE = float(os.environ.get("VERIF_SCALE", "1"))
 
 
 class HarnessError(Exception):
